@@ -42,6 +42,7 @@ let build_arg (items : Sx.t list) : UsageModel.harg =
         | "last" -> a := { !a with ha_last = true }
         | "reqeq" -> a := { !a with ha_req_eq = true }
         | "hide" -> a := { !a with ha_hide = true }
+        | "global" -> a := { !a with ha_global = true }
         | x -> failwith ("help area: unsupported arg flag " ^ x)) args
     | "help" | "x-help" -> a := { !a with ha_help = Some (bs (hd args)) }
     | "x-long-help" -> a := { !a with ha_long_help = Some (bs (hd args)) }
